@@ -480,10 +480,15 @@ def make_history_spec(rng, split, files, other_split, other_files, negative_modu
     for op in ops:
         if rng.random() < 0.15:
             op["lints"] = False
+        if rng.random() < 0.2:
+            op["probe"] = True      # read-only calls at unusual moments (pworker: generate_ir early and twice, take_lints twice)
     # a module abandoned half-way leaves declarations without bodies in the
     # combined module; linking is only judged when every module completed
     complete = all(op["stop"] == "full" for op in ops) and negative_module is None and not any(a["name"] != "aux/lint_accepted.pn" for a in aux)
-    return {"groups": groups, "ops": ops, "link": True, "refs": True, "check_linked": complete}
+    spec = {"groups": groups, "ops": ops, "link": True, "refs": True, "check_linked": complete}
+    if rng.random() < 0.1:
+        spec["wasm"] = True         # the whole history (and its references) through a Compiler retargeted to wasm32
+    return spec
 
 
 def build_program_cases(seed, i, tier):
